@@ -90,7 +90,8 @@ func (fr *Frame) call(st *State, pc Term, ins *ssa.Call) Val {
 		return fr.applyContracts(st, pc, []conPart{{key: key, con: con, names: names, args: args, recv: &recv}}, resT, pos)
 	}
 	callee := c.StaticCallee()
-	if callee != nil && (callee.String() == "sort.Sort" || callee.String() == "sort.Stable") && len(c.Args) == 1 {
+	if callee != nil && (callee.String() == "sort.Sort" || callee.String() == "sort.Stable" ||
+		((callee.String() == "sort.Slice" || callee.String() == "sort.SliceStable") && len(c.Args) == 2)) && len(c.Args) >= 1 {
 		// sort.Sort(x) with x a slice type converted to sort.Interface: operate on the slice itself
 		if mi, ok := c.Args[0].(*ssa.MakeInterface); ok {
 			args[0] = fr.get(st, mi.X)
@@ -648,7 +649,13 @@ func externalModifies(callee *ssa.Function) []int {
 	switch {
 	case strings.HasPrefix(name, "golang.org/x/exp/slices.Reverse"), strings.HasPrefix(name, "slices.Reverse"):
 		return []int{0}
-	case name == "sort.Strings", name == "sort.Sort", name == "sort.Ints", name == "sort.Stable":
+	case name == "sort.Strings", name == "sort.Sort", name == "sort.Ints", name == "sort.Stable", name == "sort.Float64s",
+		name == "sort.Slice", name == "sort.SliceStable",
+		strings.HasPrefix(name, "slices.Sort"), strings.HasPrefix(name, "golang.org/x/exp/slices.Sort"),
+		strings.HasPrefix(name, "slices.Delete"), strings.HasPrefix(name, "golang.org/x/exp/slices.Delete"),
+		strings.HasPrefix(name, "slices.Insert"), strings.HasPrefix(name, "golang.org/x/exp/slices.Insert"),
+		strings.HasPrefix(name, "slices.Compact"), strings.HasPrefix(name, "golang.org/x/exp/slices.Compact"):
+		// in-place operations of the standard library on their first argument
 		return []int{0}
 	}
 	return nil
@@ -789,6 +796,9 @@ func (fr *Frame) external(st *State, pc Term, callee *ssa.Function, args []Val, 
 	}
 	for _, m := range externalModifies(callee) {
 		if m < len(args) && args[m].K == vSlice {
+			if e.prov != nil {
+				e.prov.write(e, args[m].R, pos, name)
+			}
 			old := st.mem[args[m].R]
 			st.mem[args[m].R] = e.fresh("extmod", old.Sort)
 		}
